@@ -6,9 +6,13 @@
    way to change the destination is the Ok result.  Totality (no Crash) is the typing invariant
    "every validator names a field of the shape it dereferences" ([wf_ty], a decidable predicate on the
    generated type tree, Proofs/WfP.v): under it NO document and NO fuel leads to a panic.  [wf_ty] is
-   evaluated on the type the model generates for every schema of the correspondence families
-   (RunCore.case_wf); that gen always produces wf types is checked per instance, not proved in general. *)
-From GJS Require Import Base Regex Schema GoType Gen Exec Valid ExecP GenP CoreP WfP.
+   evaluated on the type the model generates for every schema of the correspondence families (RunCore.case_wf).
+   For every schema, [wf_ty] of the generated type reduces to a residue (Proofs/GenWfP.v, [wf_s (v_resid env)]): distinct non-empty
+   field names, default literals that fit their field, the additional-properties block having a raw map, references that resolve;
+   that the string / numeric / array / null-type validators name fields of the right shape holds by construction of the
+   generator, for every schema and every fuel (C19_generated_wf), so the generated methods of a whole file never panic
+   once the residue holds (C19_generated_total). *)
+From GJS Require Import Base Regex Schema GoType Gen Exec Valid ExecP GenP CoreP WfP GenWfP.
 
 Theorem C19_atomic : forall fmt_ok env dest f t j,
   snd (unmarshal_into fmt_ok env dest f t j) = false -> fst (unmarshal_into fmt_ok env dest f t j) = dest.
@@ -25,6 +29,21 @@ Print Assumptions C19_total.
 Theorem C19_shapes : forall fmt_ok env, env_wf env -> forall f t, wf_ty env t = true -> dec_good (dec fmt_ok env f) t.
 Proof. exact dec_safe. Qed.
 Print Assumptions C19_shapes.
+
+(* for every schema: the generated type is well formed as soon as its residue is *)
+Theorem C19_generated_wf : forall idf cf defs env fuel m self sub s scope t b,
+  gen idf cf defs fuel m self sub s scope = Done (t, b) -> wf_s env (v_resid env) t = true -> wf_ty env t = true.
+Proof. exact gen_wf. Qed.
+Print Assumptions C19_generated_wf.
+
+Theorem C19_generated_total : forall fmt_ok idf cf defs root root_name p,
+  gen_file idf cf defs root root_name = Done p ->
+  (forall d u, In (d, u) (p_defs p) -> wf_s (p_defs p) (v_resid (p_defs p)) u = true) ->
+  (forall rt, p_root p = Some rt -> wf_s (p_defs p) (v_resid (p_defs p)) rt = true) ->
+  (forall rt, p_root p = Some rt -> forall f j, dec fmt_ok (p_defs p) f rt j <> Crash) /\
+  (forall d u, lookup d (p_defs p) = Some u -> forall f j, dec fmt_ok (p_defs p) f u j <> Crash).
+Proof. exact generated_never_panics. Qed.
+Print Assumptions C19_generated_total.
 
 (* non-vacuity: the type generated for a schema with required, defaulted, constrained and nested properties is well formed *)
 Definition wf_schema : schema :=
